@@ -50,6 +50,7 @@ class CtxConfig:
     state_kinds: Tuple[str, ...] = ("absent", "uint", "bytes")
     uninit_tracking: bool = False
     concrete: Optional[Dict[str, Any]] = None   # replay: name -> int / bytes
+    presets: Dict[str, Any] = field(default_factory=dict)   # name -> list of byte terms (input fixed to a term, e.g. an ARC-4 encoding)
 
 
 class World:
@@ -89,6 +90,8 @@ class World:
         if c is not None:
             val = c.get(name, b"\x00" * (fixed_len or 0))
             return Bs(list(val))
+        if name in self.cfg.presets:
+            return Bs(list(self.cfg.presets[name]))
         if fixed_len is not None:
             n = fixed_len
         else:
